@@ -27,3 +27,77 @@ func H_IdInRange_Total() {
 		zv.Reach("out")
 	}
 }
+
+func pureIsDigit(c rune) bool { return c >= '0' && c <= '9' }
+
+// refNumber: the documented numeric form
+//   [+-]? D+ (\. D+)? ( ([eE][+-] | \*(10)?\^ [+-]?) D+ )?
+// returns (isNumber, startsLikeNumber, normalised decimal text for strconv).
+func refNumber(s []rune) (bool, bool, []rune) {
+	i := 0
+	n := len(s)
+	var norm []rune
+	if i < n && (s[i] == '+' || s[i] == '-') {
+		norm = append(norm, s[i])
+		i++
+	}
+	if !(i < n && pureIsDigit(s[i])) {
+		return false, false, nil
+	}
+	for i < n && pureIsDigit(s[i]) {
+		norm = append(norm, s[i])
+		i++
+	}
+	if i < n && s[i] == '.' {
+		j := i + 1
+		if !(j < n && pureIsDigit(s[j])) {
+			return false, true, nil
+		}
+		norm = append(norm, '.')
+		i = j
+		for i < n && pureIsDigit(s[i]) {
+			norm = append(norm, s[i])
+			i++
+		}
+	}
+	if i == n {
+		return true, true, norm
+	}
+	// exponent
+	switch {
+	case s[i] == 'e' || s[i] == 'E':
+		i++
+		if !(i < n && (s[i] == '+' || s[i] == '-')) {
+			return false, true, nil
+		}
+		norm = append(norm, s[i-1], s[i])
+		i++
+	case s[i] == '*':
+		i++
+		if i+1 < n && s[i] == '1' && s[i+1] == '0' {
+			i += 2
+		}
+		if !(i < n && s[i] == '^') {
+			return false, true, nil
+		}
+		i++
+		norm = append(norm, 'e')
+		if i < n && (s[i] == '+' || s[i] == '-') {
+			norm = append(norm, s[i])
+			i++
+		}
+	default:
+		return false, true, nil
+	}
+	if !(i < n && pureIsDigit(s[i])) {
+		return false, true, nil
+	}
+	for i < n && pureIsDigit(s[i]) {
+		norm = append(norm, s[i])
+		i++
+	}
+	if i != n {
+		return false, true, nil
+	}
+	return true, true, norm
+}
